@@ -2,6 +2,7 @@ package participle
 
 import (
 	"fmt"
+	"reflect"
 	"strings"
 )
 
@@ -21,7 +22,7 @@ func ebnf(n node) string {
 	outp := []*ebnfp{}
 	switch n.(type) {
 	case *strct:
-		buildEBNF(true, n, map[node]bool{}, nil, &outp)
+		buildEBNF(true, n, map[node]string{}, nil, &outp)
 		out := []string{}
 		for _, p := range outp {
 			out = append(out, fmt.Sprintf("%s = %s .", p.name, p.out))
@@ -30,7 +31,7 @@ func ebnf(n node) string {
 
 	default:
 		out := &ebnfp{}
-		buildEBNF(true, n, map[node]bool{}, out, &outp)
+		buildEBNF(true, n, map[node]string{}, out, &outp)
 		return out.out
 	}
 }
@@ -65,7 +66,24 @@ func endsWithModifier(n node) bool {
 	return false
 }
 
-func buildEBNF(root bool, n node, seen map[node]bool, p *ebnfp, outp *[]*ebnfp) {
+// productionName returns the EBNF name of the production for n and whether this is its first appearance.
+//
+// Anonymous struct types have no name of their own; they are numbered in order of appearance.
+func productionName(n node, t reflect.Type, seen map[node]string) (string, bool) {
+	if name, ok := seen[n]; ok {
+		return name, false
+	}
+	name := t.Name()
+	if name == "" {
+		name = fmt.Sprintf("Anon%d", len(seen))
+	} else {
+		name = strings.ToUpper(name[:1]) + name[1:]
+	}
+	seen[n] = name
+	return name, true
+}
+
+func buildEBNF(root bool, n node, seen map[node]string, p *ebnfp, outp *[]*ebnfp) {
 	switch n := n.(type) {
 	case *disjunction:
 		if !root {
@@ -82,16 +100,15 @@ func buildEBNF(root bool, n node, seen map[node]bool, p *ebnfp, outp *[]*ebnfp) 
 		}
 
 	case *union:
-		name := strings.ToUpper(n.typ.Name()[:1]) + n.typ.Name()[1:]
+		name, first := productionName(n, n.typ, seen)
 		if p != nil {
 			p.out += name
 		}
-		if seen[n] {
+		if !first {
 			return
 		}
 		p = &ebnfp{name: name}
 		*outp = append(*outp, p)
-		seen[n] = true
 		for i, next := range n.disjunction.nodes {
 			if i > 0 {
 				p.out += " | "
@@ -100,18 +117,17 @@ func buildEBNF(root bool, n node, seen map[node]bool, p *ebnfp, outp *[]*ebnfp) 
 		}
 
 	case *custom:
-		name := strings.ToUpper(n.typ.Name()[:1]) + n.typ.Name()[1:]
+		name, _ := productionName(n, n.typ, seen)
 		p.out += name
 
 	case *strct:
-		name := strings.ToUpper(n.typ.Name()[:1]) + n.typ.Name()[1:]
+		name, first := productionName(n, n.typ, seen)
 		if p != nil {
 			p.out += name
 		}
-		if seen[n] {
+		if !first {
 			return
 		}
-		seen[n] = true
 		p = &ebnfp{name: name}
 		*outp = append(*outp, p)
 		buildEBNF(true, n.expr, seen, p, outp)
